@@ -431,6 +431,11 @@ def cb_prop(s, a, param):
 def cb_m(s, a):
     LOG.append(("method", ast.unparse(a)))
     return s.MetaData({"cb": "method"}), a
+import pathlib
+def cb_m_path(s, a):
+    # metadata that holds something that is no python literal
+    LOG.append(("method", ast.unparse(a)))
+    return s.MetaData({"cb": "method", "script": pathlib.PurePosixPath("a/b.sh"), "runs": range(2)}), a
 def proc(s, a):
     LOG.append(("func", ast.unparse(a)))
     return s.MetaData({"cb": "func"}), a
@@ -447,6 +452,8 @@ class DataJet:
 class Jet:
     @func_adl_callback(cb_m)
     def pt(self) -> float: ...
+    @func_adl_callback(cb_m_path)
+    def eta(self) -> float: ...
 # a model collection declaring an operator of its own, with its own parameter name
 class JetColl(Iterable[T]):
     def Where(self, test) -> "JetColl[T]": ...
@@ -457,6 +464,21 @@ class Evt:
 def q_prop(ds): return ds.Select("lambda e: e.djet().attr['a'](1)")
 def q_func(ds): return ds.Select(lambda e: scale_impl_c09(e.met()))
 def q_func_nested(ds): return ds.Select(lambda e: e.jets().Select(lambda j: scale_impl_c09(j.pt(), by=3.0)))
+# the registered function known to the query under another name
+uno_c09 = scale_impl_c09
+def q_func_alias(ds): return ds.Select(lambda e: uno_c09(e.met()))
+def q_func_alias_nested(ds):
+    f = scale_impl_c09
+    return ds.Select(lambda e: e.jets().Select(lambda j: f(j.pt())))
+# handed on as a value it is a helper like any other
+@func_adl_callable(proc)
+def one_c09(x: float) -> float: return x + 1
+def q_func_as_value(ds): return ds.Select(lambda e: e.jets().Select(lambda j: j.pt()).Select(one_c09))
+# python's own types as parameters of a parameterized property
+def q_prop_types(ds): return ds.Select("lambda e: e.djet().attr[float, 'n'](1)")
+# non-literal metadata coming out of a nested lambda
+def q_md_nested(ds): return ds.Select("lambda e: e.jets().Select(lambda j: j.eta())")
+def q_md_nested2(ds): return ds.Select("lambda e: e.jets().Select(lambda j: e.jets().Where(lambda k: k.eta() > j.eta()).Count())")
 def q_own_kw(ds): return ds.Select("lambda e: e.jets().Where(test=lambda j: j.pt() > 30).Count()")
 '''
 
@@ -470,6 +492,12 @@ def directed(ctx):
         "q_func": ([("func",)], ["func"], "scale_impl_c09(e.met(), 2.0)", None),
         "q_func_nested": ([("method",), ("func",)], ["method", "func"], "scale_impl_c09(j.pt(), 3.0)", None),
         "q_own_kw": ([("method",)], ["method"], "j.pt() > 30", None),
+        "q_func_alias": ([("func",)], ["func"], "scale_impl_c09(e.met(), 2.0)", "uno_c09"),
+        "q_func_alias_nested": ([("method",), ("func",)], ["method", "func"], "scale_impl_c09(j.pt(), 2.0)", "f(j"),
+        "q_func_as_value": ([("method",)], ["method"], "j.pt()", None),
+        "q_prop_types": ([("prop",)], ["prop"], "attr(1)", "[float"),
+        "q_md_nested": ([("method",)], ["method"], "j.eta()", None),
+        "q_md_nested2": ([("method",), ("method",)], ["method", "method"], "k.eta() > j.eta()", None),
     }
     for name, (calls, mds, must_have, must_not_have) in want.items():
         ctx.case(f"directed:{name}", True)
@@ -480,6 +508,9 @@ def directed(ctx):
         except Exception as e:
             ctx.violation(f"directed:exc:{type(e).__name__}", f"{name}: {type(e).__name__}: {str(e)[:200]}", w)
             continue
+        if name == "q_prop_types" and [c[1] for c in m.LOG] != [(float, "n")]:
+            ctx.violation("directed:parameters-not-passed-by-value", f"{name}: the callback received {[c[1] for c in m.LOG]}, the subscript holds (float, 'n')", w)
+            continue
         got_calls = sorted(c[:1] for c in m.LOG)
         if got_calls != sorted(calls):
             ctx.violation("directed:callback-invocations-differ", f"{name}: callbacks invoked {m.LOG}, expected one each of {calls}", w)
@@ -487,7 +518,8 @@ def directed(ctx):
         text = astx.unparse(s.query_ast)
         chain, node = [], s.query_ast.args[0]
         while isinstance(node, ast.Call) and isinstance(node.func, ast.Name) and node.func.id == "MetaData":
-            chain.append(ast.literal_eval(node.args[1]).get("cb"))
+            d = node.args[1]
+            chain.append(next((v.value for k, v in zip(d.keys, d.values) if isinstance(k, ast.Constant) and k.value == "cb"), None) if isinstance(d, ast.Dict) else None)
             node = node.args[0]
         if sorted(chain) != sorted(mds):
             ctx.violation("directed:metadata-not-on-the-source-chain", f"{name}: MetaData upstream of the operator {chain}, expected {mds}: {text[:200]}", w)
